@@ -44,6 +44,7 @@ type Client struct {
 	PauseMs    int  `json:"pauseMs"`
 	DelayMs    int  `json:"delayMs"`  // delay before connecting
 	KeepOpen   bool `json:"keepOpen"` // the client leaves its connection open: the agent's stop has to close it
+	Pad        int  `json:"pad"`      // so many filler bytes after the stamp in every record (large chunks)
 }
 
 // Gen is one life of the agent
@@ -69,6 +70,9 @@ type Script struct {
 	// the output is the Datadog client and the upstream an HTTP intake; Gen.Upstream is then the outcome per request:
 	// healthy (200) | lateAck (200 after 120 ms) | noAck (never answers) | closeNow (connection reset) | resetAfter1 (500) | resetAfter2 (300)
 	Datadog bool `json:"datadog"`
+	// defs.ForwarderMaxPendingChunksForAck (0 = 3): with a large window a sender facing a peer that does not read keeps
+	// writing until the socket buffers are full and blocks in the middle of a write (in-process runs only)
+	AckWindow int `json:"ackWindow"`
 	// with ViaRun: the stop request is SIGINT instead of SIGTERM
 	StopWithInt bool `json:"stopWithInt"`
 	// the Fluentd output logs in with a shared key; the upstream behaviour "badKey" is a server holding another key
@@ -242,6 +246,23 @@ func (u *upstream) run(ln net.Listener) {
 
 func (u *upstream) serve(c net.Conn, k int, beh string) {
 	defer c.Close()
+	if beh == "noRead" { // keeps the connection and never reads: the sender blocks in the middle of a write once the buffers are full
+		if tc, ok := c.(*net.TCPConn); ok {
+			_ = tc.SetReadBuffer(4096)
+		}
+		u.mu.Lock()
+		myGen := u.gen
+		u.mu.Unlock()
+		for t0 := time.Now(); time.Since(t0) < 30*time.Second; time.Sleep(20 * time.Millisecond) {
+			u.mu.Lock()
+			over := u.gen != myGen
+			u.mu.Unlock()
+			if over {
+				return
+			}
+		}
+		return
+	}
 	if beh == "closeNow" || beh == "refuse" {
 		_ = c.(*net.TCPConn).SetLinger(0)
 		return
@@ -453,6 +474,10 @@ func RunScript(sc Script, work string) *vtrace.Tracer {
 	} else {
 		defs.BufferMaxNumChunksInMemory = 500
 	}
+	defs.ForwarderMaxPendingChunksForAck = 3
+	if sc.AckWindow > 0 {
+		defs.ForwarderMaxPendingChunksForAck = sc.AckWindow
+	}
 	if sc.ChunkRecords > 0 {
 		oldRecs, oldBytes := fluentdforward.SetChunkLimitsForVerif(sc.ChunkRecords, 0)
 		defer fluentdforward.SetChunkLimitsForVerif(oldRecs, oldBytes)
@@ -648,7 +673,11 @@ func RunScript(sc Script, work string) *vtrace.Tracer {
 				w := bufio.NewWriter(conn)
 				for i := 1; i <= cl.N; i++ {
 					k := (c+i)%keys + 1
-					fmt.Fprintf(w, "<13>1 2020-07-20T03:48:20.154Z host%d app%d 1 src - g%d-c%d-s%d\n", c, k, genNo, c, i)
+					if cl.Pad > 0 {
+						fmt.Fprintf(w, "<13>1 2020-07-20T03:48:20.154Z host%d app%d 1 src - g%d-c%d-s%d %s\n", c, k, genNo, c, i, strings.Repeat("p", cl.Pad))
+					} else {
+						fmt.Fprintf(w, "<13>1 2020-07-20T03:48:20.154Z host%d app%d 1 src - g%d-c%d-s%d\n", c, k, genNo, c, i)
+					}
 					if cl.PauseEvery > 0 && i%cl.PauseEvery == 0 {
 						w.Flush()
 						time.Sleep(time.Duration(cl.PauseMs) * time.Millisecond)
